@@ -434,8 +434,9 @@ func (d *RecDir) Load(kind string, id uint64) (*segment.Data, io.Closer, error) 
 type faultyWriterTo struct {
 	inner   index.WriterTo
 	fault   *Fault
-	buf     bytes.Buffer
-	started func()
+	buf      bytes.Buffer
+	intended []byte
+	started  func()
 }
 
 type teeWriter struct {
@@ -466,13 +467,15 @@ func (f *faultyWriterTo) WriteTo(w io.Writer, closeCh chan struct{}) (int64, err
 	if f.started != nil {
 		f.started()
 	}
+	// render the item once into memory: the recorded content of a persist is what the file is meant
+	// to hold (torn variants are derived from it), whatever part of it reaches the file
+	var dry bytes.Buffer
+	if _, err := f.inner.WriteTo(&dry, closeCh); err != nil {
+		return 0, err
+	}
+	f.intended = append([]byte{}, dry.Bytes()...)
 	tw := &teeWriter{w: w, buf: &f.buf, limit: -1}
 	if f.fault != nil && f.fault.When == "partial" {
-		// learn the size with a dry run into memory, then fail half way through the real write
-		var dry bytes.Buffer
-		if _, err := f.inner.WriteTo(&dry, closeCh); err != nil {
-			return 0, err
-		}
 		tw.limit = dry.Len() / 2
 		tw.err = f.fault.Err
 	}
@@ -494,7 +497,10 @@ func (d *RecDir) Persist(kind string, id uint64, w index.WriterTo, closeCh chan 
 	fw.started = func() { startEv = d.Rec.Add(&Event{Kind: "persist-start", Item: kind, ID: id}) }
 	err := d.Inner.Persist(kind, id, fw, closeCh)
 	if startEv != nil {
-		startEv.Bytes = append([]byte{}, fw.buf.Bytes()...)
+		startEv.Bytes = fw.intended
+		if startEv.Bytes == nil {
+			startEv.Bytes = append([]byte{}, fw.buf.Bytes()...)
+		}
 	}
 	if err != nil {
 		d.Rec.Add(&Event{Kind: "persist-err", Item: kind, ID: id, Err: err.Error()})
